@@ -169,6 +169,36 @@ def rule_r4(facts, rep, rid="C19-R4"):
             rep.violation(rid, hf.def_ + "|uses-library-path", "%s does not use get_library_path(): read and write side could address different directories" % h, hf.loc)
 
 
+def rule_r4b(facts, rep, rid="C19-R4b"):
+    """A note that cannot be read is left alone: the loader turns a read error into `no note` (`.ok()`, `?`, a match on Err), never into an empty text - an empty note would be
+    exported as an empty file over the original (a Latin-1 file, a file without read permission)."""
+    n = 0
+    for f in facts.body_fns():
+        if f.crate not in ("liwe", "iwe") or "::tests::" in f.def_ or "::test::" in f.def_ or not (f.def_.startswith("liwe::fs::") or f.crate == "iwe"):
+            continue
+        c = None
+        i = 0
+        for x in fb.calls_in(f.body, lambda p: p in ("std::fs::read_to_string", "std::fs::read")):
+            c = c or ctx(f)
+            rep.saw_fn(f)
+            owner = f.parent if f.kind == "closure" and f.parent else f.def_
+            key = "%s|%s|%d|read-error-is-not-empty-text" % (owner, fb.last_seg(fb.callee(x)), i)
+            i += 1
+            n += 1
+            from .common import value_chain
+            names = [m_["name"] for m_ in value_chain(c, x)]
+            swallow = [nm for nm in names if nm in ("unwrap_or_default", "unwrap_or", "unwrap_or_else", "map_or", "map_or_else")]
+            # only up to the point where the Result stops being one (`.ok()` / `?` / expect)
+            cut = next((k for k, nm in enumerate(names) if nm in ("ok", "expect", "unwrap", "map_err")), len(names))
+            swallow = [nm for nm in names[:cut] if nm in ("unwrap_or_default", "unwrap_or", "unwrap_or_else", "map_or", "map_or_else")]
+            if swallow:
+                rep.violation(rid, key, "the result of %s goes through `%s`: a file that cannot be read (not UTF-8, no permission) is loaded as an empty note, and normalize writes that "
+                              "empty text over the file" % (fb.last2(fb.callee(x)), swallow[0]), loc(f, x))
+            else:
+                rep.ok(rid, key, "read error -> %s" % (names[cut] if cut < len(names) else "propagated"), loc(f, x))
+    rep.floor(rid, "file reads of the loader / CLI", n, 2)
+
+
 def rule_r5(facts, rep, rid="C19-R5"):
     """Every directory below the library is visited: the recursion of the loader is decided by `is_dir()` alone.  If the entries are split by the `md`
     extension first and only the rest is searched for directories, a directory whose own name ends in `.md` is never entered and its notes are never
@@ -235,6 +265,8 @@ def run(facts, rep, tier):
     rule_r2(facts, rep)
     rule_r3(facts, rep)
     rule_r4(facts, rep)
+    rep.rule("C19-R4b", "A file that cannot be read is skipped, never loaded as an empty note: the Result of fs::read_to_string reaches `.ok()` / `?` / expect without a defaulting combinator.")
+    rule_r4b(facts, rep)
     rep.rule("C19-R5", "Every directory below the library is entered: the loader's recursion is decided by is_dir() alone, never by a file-extension test.")
     rule_r5(facts, rep)
     rep.rule("C19-R6", "= C14-R9: every file of the library has its own entry - two keys are the same only if their text is the same (derived ==, Hash, order on Key); otherwise one file's "
